@@ -132,3 +132,109 @@ func H20_vp_makevisible() {
 	vsymAssert(vsymAnd(x >= x1, x <= x2), "MakeVisible makes the column visible")
 	vsymAssert(vsymAnd(y >= y1, y <= y2), "MakeVisible makes the row visible")
 }
+
+// ---- BoxLayout (float64 surplus distribution; concrete fill factors, symbolic sizes)
+
+type h20Widget struct {
+	w, h int
+	view View
+	WidgetWatchers
+}
+
+func (w *h20Widget) Draw()                           {}
+func (w *h20Widget) Resize()                         {}
+func (w *h20Widget) HandleEvent(ev tcell.Event) bool { return false }
+func (w *h20Widget) SetView(v View)                  { w.view = v }
+func (w *h20Widget) Size() (int, int)                { return w.w, w.h }
+
+// H20_box: children are placed in order along the axis, disjoint, inside the
+// parent; each gets at least its preferred extent when space suffices; the
+// surplus is distributed exactly and in proportion to the fill factors.
+func H20_box() {
+	n := 1 + vsymChoice("children", vsymParam("maxchildren", 2))
+	horiz := vsymChoice("orient", 2) == 0
+	fillMenu := []float64{0, 0.5, 1, 2, 3}
+	pw, ph := vsymInt("pw"), vsymInt("ph")
+	lim := vsymParam("maxsize", 4096)
+	vsymAssume(vsymAnd(vsymAnd(pw >= 0, pw <= lim), vsymAnd(ph >= 0, ph <= lim)))
+	parent := &h20Rec{w: pw, h: ph}
+	var b *BoxLayout
+	if horiz {
+		b = NewBoxLayout(Horizontal)
+	} else {
+		b = NewBoxLayout(Vertical)
+	}
+	b.SetView(parent)
+	ws := make([]*h20Widget, n)
+	fills := make([]float64, n)
+	totf := 0.0
+	for i := 0; i < n; i++ {
+		sz := vsymInt("size")
+		vsymAssume(vsymAnd(sz >= 0, sz <= lim))
+		ws[i] = &h20Widget{w: sz, h: sz}
+		fills[i] = fillMenu[vsymChoice("fill", len(fillMenu))]
+		totf += fills[i]
+	}
+	// add in order, the last one by InsertWidget at the end (same result as AddWidget)
+	for i := 0; i < n; i++ {
+		if i == n-1 && vsymChoice("how", 2) == 1 {
+			b.InsertWidget(n, ws[i], fills[i])
+		} else {
+			b.AddWidget(ws[i], fills[i])
+		}
+	}
+	b.Resize()
+	want := 0 // total preferred extent
+	for i := 0; i < n; i++ {
+		want += ws[i].w
+	}
+	avail := pw
+	if !horiz {
+		avail = ph
+	}
+	surplus := avail - want
+	if surplus < 0 {
+		surplus = 0
+	}
+	pos := 0
+	padSum := 0
+	for i, c := range b.cells {
+		vsymAssert(c.widget == Widget(ws[i]), "children are kept in insertion order")
+		v := c.view
+		start, ext := v.physx, v.width
+		if !horiz {
+			start, ext = v.physy, v.height
+		}
+		pad := ext - ws[i].w
+		if want <= avail {
+			vsymAssert(start == pos, "children are placed one after the other along the axis (disjoint, in order)")
+			vsymAssert(ext >= ws[i].w, "each child gets at least its preferred extent when space suffices")
+			vsymAssert(start+ext <= avail, "each child lies inside the parent's view")
+			vsymAssert(pad == c.pad, "extent = preferred extent + padding")
+			if fills[i] == 0 {
+				vsymAssert(pad == 0, "a child with fill factor 0 gets no surplus")
+			}
+			if totf > 0 && fills[i] > 0 {
+				share := float64(surplus) * fills[i] / totf
+				fl := int(share)
+				vsymAssert(pad == fl || pad == fl+1, "padding is the proportional share rounded down or up")
+			}
+			padSum += pad
+		}
+		pos += ext
+	}
+	if want <= avail && totf > 0 {
+		vsymAssert(padSum == surplus, "the surplus is distributed exactly, cell for cell")
+	}
+	// removal re-lays out
+	if n >= 2 && want <= avail {
+		b.RemoveWidget(ws[0])
+		vsymAssert(len(b.cells) == n-1 && b.cells[0].widget == Widget(ws[1]), "RemoveWidget removes exactly that child")
+		v := b.cells[0].view
+		if horiz {
+			vsymAssert(v.physx == 0, "after removal the first remaining child starts at the origin")
+		} else {
+			vsymAssert(v.physy == 0, "after removal the first remaining child starts at the origin")
+		}
+	}
+}
